@@ -73,7 +73,7 @@ Qed.
 
 (* ---- one operation -------------------------------------------------------- *)
 Lemma okwf_frame_end t exc : okwf (frame_end t exc) = true -> okwf t = true.
-Proof. unfold frame_end. sproj. intros H. now apply andb_true_iff in H. Qed.
+Proof. unfold frame_end. sproj. auto. Qed.
 
 Lemma okwf_sp_step_mono sc t o ob : okwf (sp_step sc t o ob) = true -> okwf t = true.
 Proof.
@@ -103,8 +103,8 @@ Proof.
   rewrite ok09_sp_action, E, outcome_eqb_refl. apply andb_true_r.
 Qed.
 
-Lemma step_sim sc s t b o ob fut s' :
-  Inv s [] b -> Rel s t [] b -> step sc s o ob fut = Some s' ->
+Lemma step_sim ord sc s t b o ob s' :
+  Inv s [] b -> Rel s t [] b -> step ord sc s o ob = Some s' ->
   okwf (sp_step sc t o ob) = true ->
   t_abort t = None ->
   exists b', Inv s' [] b' /\ Rel s' (sp_step sc t o ob) [] b' /\
@@ -133,8 +133,8 @@ Proof.
     intros L. split; auto. sproj. rewrite (r_val _ _ _ _ HR), Ev.
     destruct (memz g (t_fin t)); apply andb_true_r.
   - (* process *)
-    unfold process in Hs. destruct (wake s dt (log ++ fut)) as [[s1 e1]|] eqn:Ew; [|discriminate].
-    destruct (wake_sim _ _ _ _ _ _ HI Ew) as (-> & W & HI1 & Hst & HW & Hpc & Hpv & Hdn & HL1 & _).
+    unfold process in Hs. destruct (wake ord s dt log) as [[s1 e1]|] eqn:Ew; [|discriminate].
+    destruct (wake_sim _ _ _ _ _ _ _ HI Ew) as (-> & W & HI1 & Hst & HW & Hpc & Hpv & Hdn & HL1 & _).
     destruct (loop sc _ _ log) as [[[s2 log'] e]|] eqn:El; [|discriminate].
     destruct log' as [|? ?]; [|discriminate].
     destruct (outcome_eqb exc e) eqn:Ee; [|discriminate].
@@ -157,6 +157,25 @@ Proof.
         now rewrite !andb_true_r.
 Qed.
 
+(* an accepted trace: some reading of the open choice was accepted *)
+Lemma run_choice sc s o ob tr s' cs :
+  (fix try (cs : list (list gid)) : option st :=
+     match cs with
+     | [] => None
+     | c :: cs =>
+         match (match step c sc s o ob with Some s1 => run sc s1 tr | None => None end) with
+         | Some r => Some r
+         | None => try cs
+         end
+     end) cs = Some s' ->
+  exists c s1, step c sc s o ob = Some s1 /\ run sc s1 tr = Some s'.
+Proof.
+  induction cs as [|c cs IH]; [discriminate|].
+  destruct (step c sc s o ob) as [s1|] eqn:Es; [|exact IH].
+  destruct (run sc s1 tr) as [r|] eqn:Er; [|exact IH].
+  intros [= <-]. eauto.
+Qed.
+
 (* ---- whole traces ------------------------------------------------------------ *)
 Lemma run_sim sc tr : forall s t b s',
   Inv s [] b -> Rel s t [] b -> run sc s tr = Some s' ->
@@ -167,10 +186,10 @@ Lemma run_sim sc tr : forall s t b s',
 Proof.
   induction tr as [|[o ob] tr IH]; intros s t b s' HI HR Hr Hwf Hab.
   - injection Hr as <-. exists b. cbn [sp_run]. auto.
-  - cbn [run] in Hr. destruct (step sc s o ob (future tr)) as [s1|] eqn:Es; [|discriminate].
-    cbn [sp_run] in *. pose proof (okwf_sp_run_mono _ _ _ Hwf) as Hwf1.
+  - cbn [run] in Hr. cbn [sp_run] in *. pose proof (okwf_sp_run_mono _ _ _ Hwf) as Hwf1.
+    destruct (run_choice _ _ _ _ _ _ _ Hr) as (c & s1 & Es & Hr1).
     destruct (step_sim _ _ _ _ _ _ _ _ HI HR Es Hwf1 Hab) as (b1 & HI1 & HR1 & Hab1 & H08 & HL1).
-    destruct (IH _ _ _ _ HI1 HR1 Hr Hwf Hab1) as (b2 & HI2 & HR2 & H08' & HL2).
+    destruct (IH _ _ _ _ HI1 HR1 Hr1 Hwf Hab1) as (b2 & HI2 & HR2 & H08' & HL2).
     exists b2. split; auto. split; auto. split; [congruence|].
     intros L. destruct (HL1 L) as [L1 E1]. destruct (HL2 L1) as [L2 E2].
     split; auto. congruence.
